@@ -84,6 +84,12 @@ impl<M: Hash + Eq, A: Ord + Hash> Orswot<M, A> {
     }
 }
 
+// #[derive(Clone)] on Orswot (assumed field-wise)
+impl<M: Hash + Eq + Clone, A: Ord + Hash + Clone> Clone for Orswot<M, A> {
+    #[verifier::external_body]
+    fn clone(&self) -> (r: Self) ensures actor_ok::<A>() && clone_ok::<A>() ==> r.cl() == self.cl() { Orswot { clock: self.clock.clone(), entries: self.entries.clone(), deferred: self.deferred.clone() } }
+}
+
 impl<M: Hash + Eq, A: Ord + Hash> Default for Orswot<M, A> {
 //@extract fn src/orswot.rs "Default for Orswot" default
     fn default() -> /*@ (r: @*/ Self /*@ ) @*/
